@@ -17,6 +17,7 @@ use serde_json::{json, Value as Json};
 use std::collections::hash_map::DefaultHasher;
 use std::collections::{BTreeMap, HashMap, VecDeque};
 use std::hash::{Hash, Hasher};
+use std::panic::{catch_unwind, AssertUnwindSafe};
 use swimos_agent::verif_hooks::{drop_or_take, DropOrTake, MapStoreInner, WriteQueues};
 use swimos_agent_protocol::{LaneResponse, MapOperation};
 use swimos_form::write::StructuralWritable;
@@ -27,6 +28,16 @@ use swimos_runtime::verif_hooks::{MapOperationQueue, ReconKey};
 use uuid::Uuid;
 
 // ------------------------------------------------------------------------------------- rt
+
+fn panic_msg(e: Box<dyn std::any::Any + Send>) -> String {
+    if let Some(s) = e.downcast_ref::<String>() {
+        s.clone()
+    } else if let Some(s) = e.downcast_ref::<&str>() {
+        s.to_string()
+    } else {
+        "panic".to_string()
+    }
+}
 
 fn bm(s: &str) -> BytesMut {
     BytesMut::from(s.as_bytes())
@@ -65,7 +76,8 @@ fn run_rt(case: &Json) -> Json {
     let mut q = MapOperationQueue::new();
     let mut obs = vec![];
     for a in case["acts"].as_array().unwrap() {
-        let o = match a["k"].as_str().unwrap() {
+        // a panic of the code under test is recorded at the call that raised it
+        let r = catch_unwind(AssertUnwindSafe(|| match a["k"].as_str().unwrap() {
             "push" => match q.push(raw_op(a)) {
                 Ok(()) => json!({"empty": q.is_empty()}),
                 Err(e) => json!({"err": e.to_string(), "empty": q.is_empty()}),
@@ -85,8 +97,14 @@ fn run_rt(case: &Json) -> Json {
                 json!({"drained": d, "empty": q.is_empty()})
             }
             k => panic!("bad act {}", k),
-        };
-        obs.push(o);
+        }));
+        match r {
+            Ok(o) => obs.push(o),
+            Err(e) => {
+                obs.push(json!({"panic": panic_msg(e)}));
+                return json!({"obs": obs});
+            }
+        }
     }
     json!({"obs": obs, "final": {"empty": q.is_empty()}})
 }
@@ -244,6 +262,7 @@ fn $name<K: J, V: J>(case: &Json, comp: bool) -> Json {
     }
     let mut obs = vec![];
     for a in case["acts"].as_array().unwrap() {
+        let r = catch_unwind(AssertUnwindSafe(|| {
         let mut o = match a["k"].as_str().unwrap() {
             "update" => {
                 inner.update(K::from_json(&a["key"]), V::from_json(&a["val"]));
@@ -321,7 +340,15 @@ fn $name<K: J, V: J>(case: &Json, comp: bool) -> Json {
             k => panic!("bad act {}", k),
         };
         o["empty"] = json!(inner.queue().is_empty());
-        obs.push(o);
+        o
+        }));
+        match r {
+            Ok(o) => obs.push(o),
+            Err(e) => {
+                obs.push(json!({"panic": panic_msg(e)}));
+                return json!({"obs": obs});
+            }
+        }
     }
     let fin: Vec<Json> = inner
         .get_map(|m| sorted_entries(m.iter()))
